@@ -3,6 +3,7 @@ package sim
 import (
 	"context"
 	"database/sql"
+	"strings"
 	"encoding/base64"
 	"fmt"
 	"io"
@@ -38,6 +39,10 @@ type Env struct {
 	lim    Limits
 	sys    *Sys
 	keeper *sql.Conn
+	Opts   EnvOpts
+	dbPath string
+	chunkI int // discovered insert chunk boundary (largest n with one INSERT statement)
+	chunkD int
 	cfgKey string
 }
 
@@ -86,25 +91,33 @@ func NewEnv(t testing.TB, opts EnvOpts) *Env {
 			dsn += "&_journal_mode=WAL"
 		}
 	}
-	var keeper *sql.Conn
-	if !opts.File {
-		// an in-memory shared-cache database lives only as long as one connection
-		// is open; injected bad-connection faults make database/sql drop its
-		// connections, so the harness pins one of its own (plain go-sqlite3, not
-		// through the L2 seam)
-		kdb, err := sql.Open("sqlite3", fmt.Sprintf("file:%s?_fk=true&cache=shared&mode=memory", name))
-		if err != nil {
-			t.Fatalf("keeper: %v", err)
+	// The harness keeps one connection of its own (plain go-sqlite3, not through
+	// the L2 seam): it pins an in-memory shared-cache database (which lives only
+	// as long as one connection is open - injected bad-connection faults make
+	// database/sql drop its connections) and it is the "separate, unwrapped
+	// connection" used for table dumps.
+	kdsn := fmt.Sprintf("file:%s?_fk=true&cache=shared&mode=memory", name)
+	if opts.File {
+		kdsn = fmt.Sprintf("file:%s/%s.sqlite?_fk=true&_busy_timeout=5000", opts.Dir, name)
+		if opts.WAL {
+			kdsn += "&_journal_mode=WAL"
 		}
-		keeper, err = kdb.Conn(context.Background())
-		if err != nil {
-			t.Fatalf("keeper: %v", err)
-		}
+	}
+	kdb, err := sql.Open("sqlite3", kdsn)
+	if err != nil {
+		t.Fatalf("keeper: %v", err)
+	}
+	keeper, err := kdb.Conn(context.Background())
+	if err != nil {
+		t.Fatalf("keeper: %v", err)
 	}
 	reg := driver.NewTestRegistry(t, &dbx.DsnT{Conn: dsn, MigrateUp: true},
 		driver.WithLogLevel("panic"),
 		driver.WithNamespaces([]*namespace.Namespace{{Name: "boot"}}))
-	e := &Env{T: t, Reg: reg, Ctx: context.Background(), dbName: name, Log: &logProbe{}, keeper: keeper}
+	e := &Env{T: t, Reg: reg, Ctx: context.Background(), dbName: name, Log: &logProbe{}, keeper: keeper, Opts: opts}
+	if opts.File {
+		e.dbPath = fmt.Sprintf("%s/%s.sqlite", opts.Dir, name)
+	}
 	lg := reg.Logger().Logrus()
 	lg.SetOutput(io.Discard)
 	lg.SetFormatter(nullFormatter{})
@@ -238,6 +251,15 @@ func NewEnvFor(t testing.TB, prop, mode string) *Env {
 	switch prop {
 	case "C06":
 		return NewEnvMT(t)
+	case "C05":
+		if mode == "crash" || mode == "isolation" || mode == "crash-wal" || mode == "isolation-wal" {
+			dir, err := os.MkdirTemp("", "verifsim-c05-")
+			if err != nil {
+				t.Fatal(err)
+			}
+			t.Cleanup(func() { os.RemoveAll(dir) })
+			return NewEnv(t, EnvOpts{File: true, Dir: dir, WAL: strings.HasSuffix(mode, "-wal")})
+		}
 	}
 	return NewEnv(t, EnvOpts{})
 }
